@@ -418,3 +418,81 @@ func mutateStructure(r *rng, src string, pools unitPools) (string, bool) {
 }
 
 func sortStrings(xs []string) { sort.Strings(xs) }
+
+// deterministic printer of a token list: one space between words, a line break after `{`, `}` and comments and before `}`
+func printToks(toks []config.VerifToken) string {
+	var b strings.Builder
+	for i, t := range toks {
+		switch t.Kind {
+		case "ident":
+			b.WriteString(t.Text)
+		case "str":
+			b.WriteString(config.VerifQuoteString(t.Text))
+		case "lbrace":
+			b.WriteString("{")
+		case "rbrace":
+			b.WriteString("}")
+		case "comment":
+			b.WriteString(t.Text)
+		}
+		nl := t.Kind == "comment" || t.Kind == "lbrace" || t.Kind == "rbrace"
+		if !nl && i+1 < len(toks) && toks[i+1].Kind == "rbrace" {
+			nl = true
+		}
+		if nl {
+			b.WriteString("\n")
+		} else {
+			b.WriteString(" ")
+		}
+	}
+	return b.String()
+}
+
+// every spelling of every directive with one of its values replaced by a blank one ("" and " "), inside a whole host
+// configuration: blank values parse, fail validation, and must not be lost by the formatter
+func blankTexts(pools unitPools, hosts map[string]pairHost) []string {
+	var out []string
+	var paths []string
+	for p := range pools {
+		paths = append(paths, p)
+	}
+	sortStrings(paths)
+	for _, path := range paths {
+		h, ok := hosts[path]
+		if !ok {
+			continue
+		}
+		seen := map[string]bool{}
+		for _, u := range pools[path] {
+			n := unitNorm(u)
+			if seen[n] {
+				continue
+			}
+			seen[n] = true
+			toks, err := config.VerifLex(unitText(u))
+			if err != nil {
+				continue
+			}
+			for j := 1; j < len(toks); j++ {
+				if toks[j].Kind != "ident" && toks[j].Kind != "str" {
+					continue
+				}
+				for _, blank := range []string{"", " "} {
+					mod := append([]config.VerifToken(nil), toks...)
+					mod[j] = config.VerifToken{Kind: "str", Text: blank}
+					us := cloneUnits(h.units)
+					list := &us
+					for _, i := range h.idx {
+						list = &(*list)[i].body
+					}
+					ins := &cunit{lines: strings.Split(strings.TrimRight(printToks(mod), "\n"), "\n")}
+					*list = append([]*cunit{ins}, *list...)
+					var sb strings.Builder
+					printUnits(us, &sb)
+					out = append(out, sb.String())
+				}
+			}
+		}
+	}
+	return out
+}
